@@ -175,7 +175,7 @@ func c27GenScript(rng *rand.Rand, i int, maxTotal int) c27Script {
 		if s.PerCaller > 400 {
 			s.PerCaller = 400
 		}
-		for s.Callers*s.PerCaller/s.BigEvery > 300 { // at most ~30 MB of large payloads per case
+		for s.Callers*s.PerCaller/s.BigEvery > 100 { // at most ~10 MB of large payloads per case
 			s.BigEvery *= 2
 		}
 	}
@@ -454,12 +454,21 @@ func c27RunCase(e *c27Env, s c27Script) (obs c27Obs) {
 				if err := from.Tell(ctx, remotes[tgt], &testpb.TestLog{Text: text}); err != nil {
 					continue
 				}
-				verifrt.WaitUntil(60*time.Second, func() bool {
-					return led.fence[tgt].Load() >= n || dls.Has(text)
-				})
+				// watchdog on progress, not on the clock: the fence sits behind whatever
+				// is still in flight (large payloads drain slowly on a loaded machine)
+				lastTotal, lastChange := led.total.Load(), time.Now()
+				for !(led.fence[tgt].Load() >= n || dls.Has(text)) {
+					if cur := led.total.Load(); cur != lastTotal {
+						lastTotal, lastChange = cur, time.Now()
+					}
+					if time.Since(lastChange) > 60*time.Second {
+						break
+					}
+					time.Sleep(time.Millisecond)
+				}
 				ok = led.fence[tgt].Load() >= n
 				if !ok && !dls.Has(text) {
-					obs.Inconclusive = fmt.Sprintf("fence %q neither delivered nor dead-lettered within 60s", text)
+					obs.Inconclusive = fmt.Sprintf("fence %q neither delivered nor dead-lettered within 60s without any delivery progress", text)
 					return obs
 				}
 			}
